@@ -488,8 +488,11 @@ def gen_wits(rng, cov, lo=1, hi=4):
 
 def gen_body(rng, cov, max_elems=6, min_set=1):
     """min_set: smallest size of the non-empty sets / lists (0 only for the examine streams of C03)"""
-    b = {"inputs": gen_inputs(rng, gen_count(rng, 0, max_elems)),
-         "outputs": [gen_output(rng, cov) for _ in range(gen_count(rng, 0, min(max_elems, 4)))],
+    # 3% of the bodies hold a long collection: 24 / 25 / 30 / 256 elements do not fit the initial byte of the CBOR head
+    long_n = rng.choice([24, 24, 25, 30, 256]) if rng.random() < 0.03 else None
+    long_what = rng.choice(["inputs", "outputs", "required_signers", "vkeys"]) if long_n else None
+    b = {"inputs": gen_inputs(rng, long_n if long_what == "inputs" else gen_count(rng, 0, max_elems)),
+         "outputs": [gen_output(rng, cov) for _ in range(long_n if long_what == "outputs" else gen_count(rng, 0, min(max_elems, 4)))],
          "fee": gen_uint(rng)}
     W = lambda key, base: cov.want(rng, f"body:{key}", base)      # noqa: E731
     if W(3, 0.4):
@@ -517,6 +520,8 @@ def gen_body(rng, cov, max_elems=6, min_set=1):
         b["collateral"] = gen_inputs(rng, gen_count(rng, min_set, min(max_elems, 3)))
     if W(14, 0.25):
         b["required_signers"] = [rb(rng, 28) for _ in range(gen_count(rng, min_set, max_elems))]
+    if long_what == "required_signers":
+        b["required_signers"] = [rb(rng, 28) for _ in range(long_n)]
     if W(15, 0.2):
         b["network_id"] = rng.choice([0, 1])
     if W(16, 0.2):
@@ -541,6 +546,8 @@ def gen_spec_tx(rng, cov=None, max_elems=6, min_set=1):
     cov = cov if cov is not None else Coverage()
     tx = {"body": gen_body(rng, cov, max_elems, min_set), "wits": gen_wits(rng, cov, max(min_set, 1)),
           "valid": rng.random() < 0.85, "aux": gen_aux(rng, cov)}
+    if rng.random() < 0.01:
+        tx["wits"] = {**(tx["wits"] or {}), "vkeys": [{"vkey": rb(rng, 32), "sig": rb(rng, 64)} for _ in range(rng.choice([24, 25, 30]))]}
     cov.note(C.features(tx))
     return tx
 
@@ -760,7 +767,10 @@ def py_output(o, wire, key):
         kw["script"] = py_script(s)
     if form == "legacy" and ("datum" in kw or "script" in kw):
         raise Inexpressible("legacy output with inline datum / script (not a form of the CDDL either)")
-    return pc.TransactionOutput(pc.Address.from_primitive(o["addr"]), py_value(o["value"]), post_alonzo=(form == "map"), **kw)
+    # an inline datum or a reference script implies the map form whatever the flag says: half of those outputs are
+    # constructed with the flag left at its default (False), the bytes must be the same
+    flag = form == "map" and not (("datum" in kw or "script" in kw) and int(o["value"]["coin"]) % 2 == 0)
+    return pc.TransactionOutput(pc.Address.from_primitive(o["addr"]), py_value(o["value"]), post_alonzo=flag, **kw)
 
 
 def py_input(i):
